@@ -491,6 +491,29 @@ func (tr *Tr) convert(v Val, t types.Type) Val {
 		return Val{T: v.T, Ty: t}
 	case isFloat(st) && isFloat(dt) && intWidth(st) == intWidth(dt):
 		return Val{T: v.T, Ty: t}
+	case isFloat(st) && isInt(dt):
+		// truncation toward zero; SMT-LIB leaves the result unspecified for NaN and out-of-range values,
+		// which is Go's "implementation-dependent"
+		op := "fp.to_sbv"
+		if isUnsigned(dt) {
+			op = "fp.to_ubv"
+		}
+		return Val{T: fmt.Sprintf("((_ %s %d) RTZ %s)", op, intWidth(dt), toFP(v.T, intWidth(st))), Ty: t}
+	case isInt(st) && isFloat(dt):
+		// round to nearest even; the bit pattern of the result is tied to the exact value by an assumption
+		fn := "conv_" + sortTag(tr.C.sortOf(st)) + "_" + mangle(shortTypeName(st)) + "_to_" + mangle(shortTypeName(dt))
+		tr.C.declare(fn, fmt.Sprintf("(declare-fun %s (%s) %s)", fn, tr.C.sortOf(st), tr.C.sortOf(dt)))
+		r := app(fn, v.T)
+		eb, sb := 11, 53
+		if intWidth(dt) == 32 {
+			eb, sb = 8, 24
+		}
+		op := "to_fp"
+		if isUnsigned(st) {
+			op = "to_fp_unsigned"
+		}
+		tr.assume("true", app("=", toFP(r, intWidth(dt)), fmt.Sprintf("((_ %s %d %d) RNE %s)", op, eb, sb, v.T)))
+		return Val{T: r, Ty: t}
 	}
 	// everything else (int<->float, string<->bytes, ...) is an uninterpreted conversion function
 	fn := "conv_" + sortTag(tr.C.sortOf(st)) + "_" + mangle(shortTypeName(st)) + "_to_" + mangle(shortTypeName(dt))
